@@ -12,7 +12,7 @@ fn fmt_stub2(_a: core::fmt::Arguments<'_>) -> String {
 }
 
 // @harness c10_cow_sequence
-// @props C10 C03 C18 C01 C17
+// @props C10 C03 C18 C01 C17 C02 C04
 // @tier quick
 // @cost 100
 // @timeout 1200
